@@ -206,6 +206,77 @@ class trim_top_two_shards:
         yield from operands_untouched(a.shards)
 
 
+# ----------------------------------------------------------------------------------------------- shards_trim_sides
+# What Scrollable cuts the right-hand side of a too-wide FIXED content with (CompositeCanvas.pad_trim_left_right with a
+# negative amount).  Same stated bound as above: TWO shards of at most TWO cviews each (a cview of the first shard may
+# hang down beside the second shard's own cviews).  Statement clause: "exactly rows p to p + height": cutting columns
+# must not lose a row -- a shard none of whose own cviews lies in the window (a stack of short canvases right of the
+# window beside a tall canvas inside it) hands its rows to the shard before it.
+
+
+def narrowed(new, old):
+    """`new` shows columns of `old` only: same source, attribute map, top edge and height; left and right edge inside."""
+    return both(C2.same_source(new, old), new[1] == old[1], new[3] == old[3], new[0] >= old[0], new[0] + new[2] <= old[0] + old[2], new[2] >= 0)
+
+
+def _tall_beside_short(st, hint):
+    """Quick-tier instance: the first shard has exactly two cviews, the second one none of its own (it shows only what hangs down from the first)."""
+    l = _two_shards(st, hint)
+    (_r0, cvs0), (_r1, cvs1) = l.seq
+    st.assume(both(Q.seq_len(cvs0.seq) == 2, Q.seq_len(cvs1.seq) == 0))
+    return l
+
+
+class _trim_sides:  # (clauses shared by the two instances below; the decorator reads the decorated class's own attributes)
+    def ensures(a, r):
+        (r0, cvs0), (r1, cvs1) = a.shards.entry_seq
+        c0, c1 = cvs0.entry_seq, cvs1.entry_seq
+        n0, n1 = Q.seq_len(c0), Q.seq_len(c1)
+        out = _shards(r)
+        yield "only-for-a-window", both(a.left >= 0, a.cols > 0)
+        yield "result-list-newly-built", isinstance(r, LRef) and r is not a.shards
+        yield from operands_untouched(a.shards)
+        yield "at-most-one-shard-per-shard", 1 <= len(out) <= 2
+        if not 1 <= len(out) <= 2:
+            return
+        yield "no-row-is-lost", sum_(nr for nr, _c in out) == r0 + r1
+        yield "first-shard-keeps-its-height-or-takes-over-the-second-one's", out[0][0] == (r0 if len(out) == 2 else r0 + r1)
+        w0 = cviews_width(c0)
+        yield "first-shard-is-as-wide-as-the-window-inside-the-canvas", cviews_width(out[0][1]) == imin(a.cols, w0 - a.left)
+        olds = [(Q.seq_get(c0, j), mk_bool_(j < n0)) for j in range(MAXCV)] + [(Q.seq_get(c1, j), mk_bool_(j < n1)) for j in range(MAXCV)]
+        for k, (_nr, ncvs) in enumerate(out):
+            yield f"shard{k}-cview-list-newly-built", isinstance(ncvs, LRef) and ncvs is not cvs0 and ncvs is not cvs1
+            m = Q.seq_len(ncvs)
+            yield f"shard{k}-keeps-a-cview-of-its-own", m >= 1
+            yield f"shard{k}-not-wider-than-the-window", cviews_width(ncvs) <= a.cols
+            for i in range(MAXCV):
+                if isinstance(m, int) and i >= m:
+                    break
+                yield f"shard{k}-cview{i}-is-a-cview-of-the-canvas-narrowed", implies(i < m, either(*[both(g, narrowed(Q.seq_get(ncvs, i), old)) for old, g in olds]))
+
+    def on_raise(a, exc):
+        (_r0, cvs0), _s1 = a.shards.entry_seq
+        yield "value-error-iff-no-window", (exc.cls is ValueError) == bool_(either(a.left < 0, a.cols <= 0))
+        yield "index-error-only-when-the-window-starts-right-of-the-canvas", implies(exc.cls is IndexError, cviews_width(cvs0.entry_seq) <= a.left)
+        yield from operands_untouched(a.shards)
+
+
+@contract(CV + "shards_trim_sides", property="C20", alias="two-cviews-over-none", replayable=False, inline=(CV + "shard_body", CV + "shard_body_tail"))
+class trim_sides_tall_beside_short(_trim_sides):
+    params = dict(shards=S.Custom(_tall_beside_short, "two spelled-out shards: two cviews over none"), left=Int, cols=Int)
+    raises = (ValueError, IndexError, _canvas.CanvasError)
+    ensures = _trim_sides.ensures
+    on_raise = _trim_sides.on_raise
+
+
+@contract(CV + "shards_trim_sides", property="C20", alias="two-shards", replayable=False, inline=(CV + "shard_body", CV + "shard_body_tail"))
+class trim_sides_two_shards(_trim_sides):  # ~5900 paths, ~6 min on one core: thorough tier (contracts/tuning.py)
+    params = dict(shards=S.Custom(_two_shards, "two spelled-out shards of at most two cviews"), left=Int, cols=Int)
+    raises = (ValueError, IndexError, _canvas.CanvasError)
+    ensures = _trim_sides.ensures
+    on_raise = _trim_sides.on_raise
+
+
 def mk_bool_(x):
     return x if isinstance(x, (bool, V.SBool)) else V.mk_bool(V._zb(x))
 
